@@ -296,7 +296,10 @@ def arbitrary_tree(rng, lang, token_fn, max_leaves=7, labels=None, tokens=None):
         if (rng.random() < 0.12 and not at_root) or (at_root and rng.random() < 0.06):
             # (a unary step at the root occurs in parser output for one-word sentences; arbitrary trees may have it anywhere)
             lab = rng.choice(ulabels)
-            return Tree.make_unary(cat, build(k, False), lab[0], lab[1])
+            child = build(k, False)
+            if rng.random() < 0.2:
+                cat = child.cat          # a unary step may keep the category (treebank files have such nodes)
+            return Tree.make_unary(cat, child, lab[0], lab[1])
         j = rng.randint(1, k - 1)
         lab = rng.choice(blabels)
         if lab[0] == 'conj':
